@@ -382,7 +382,7 @@ static bool field_type_ok_(uint8_t code, const Value& v) {
   }
 }
 
-Verdict decode_frame(const uint8_t* p, size_t n, int nfds, Msg* out, std::string* reason, uint32_t max_message) {
+Verdict decode_frame(const uint8_t* p, size_t n, int nfds, Msg* out, std::string* reason, uint32_t max_message, unsigned relax) {
   std::string dummy; if (!reason) reason = &dummy;
   auto inv = [&](const char* why) { *reason = why; return Verdict::Invalid; };
   if (n < 16) return inv("shorter than fixed header");
@@ -441,7 +441,7 @@ Verdict decode_frame(const uint8_t* p, size_t n, int nfds, Msg* out, std::string
       default: break;
     }
   }
-  switch (m.type) {
+  if (!(relax & RELAX_MANDATORY)) switch (m.type) {
     case T_CALL: if (!seen[F_PATH] || !seen[F_MEMBER]) return inv("method call lacks path/member"); break;
     case T_SIGNAL: if (!seen[F_PATH] || !seen[F_INTERFACE] || !seen[F_MEMBER]) return inv("signal lacks path/interface/member"); break;
     case T_ERROR: if (!seen[F_ERROR_NAME] || !seen[F_REPLY_SERIAL]) return inv("error lacks name/reply serial"); break;
